@@ -379,11 +379,63 @@ def nat_multitarget(params, model):
     return {"ok": label is None, "detail": label or "matches the save policies", "label": label}
 
 
+# ---------------------------------------------------------------------------- several targets of DIFFERENT kinds
+def sym_multikind(case, obj=False):
+    """allow_multiple=True with two end targets of different data kinds (threaded processor):
+    'stored'  - both are stored already: the request must simply succeed;
+    'lazy_mp' - context with allow_multiprocess=True and the default max_workers (the processor then runs LAZY): the
+                request must either be refused or compute and save BOTH always-saved targets."""
+    import strax
+    from symx import conc
+    from harness import mbox
+
+    L = ctx.Layout([0, 10, 20], [[(1, 2, 0)], [(11, 12, 1)]])
+    P = [ctx.P_source("src", "ksrc", L, obj), ctx.P_map("ma", "src", obj, kind="ka"), ctx.P_map("mb", "src", obj, kind="kb")]
+    MemFrontend, _, _ = ctx.make_storage_classes()
+    fe = MemFrontend()
+    opts = dict(allow_lazy=False, timeout=2) if case == "stored" else dict(allow_lazy=True, allow_multiprocess=True, timeout=1)
+    st = ctx.make_context(P, storage=[fe], **opts)
+    if case == "stored":
+        for d in ("ma", "mb"):
+            st.make(RUN, d, processor="single_thread", progress_bar=False)
+    pol = conc.POLICIES[core.concretize(fresh_int("pol", 0, 1)) and "lowest" or "rr"]
+    raised = None
+    with mbox.SchedRun(pol) as s:
+        try:
+            if case == "stored":
+                list(st.get_iter(RUN, ("ma", "mb"), allow_multiple=True, processor="threaded_mailbox", progress_bar=False))
+            else:
+                st.make(RUN, ("ma", "mb"), allow_multiple=True, processor="threaded_mailbox", progress_bar=False)
+        except Exception as e:  # noqa
+            raised = e
+        finally:
+            s.finish()
+    if case == "stored":
+        prove(raised is None, f"multikind:everything is stored, but the request raised {type(raised).__name__}: {raised}")
+        return "ok"
+    if raised is not None:
+        prove(isinstance(raised, RuntimeError), f"multikind:raised {type(raised).__name__}: {raised}")
+        return "refused"
+    for d in ("ma", "mb"):
+        prove(st.is_stored(RUN, d), f"multikind:make returned normally but the always-saved target {d} was never computed / saved")
+    return "made"
+
+
+def nat_multikind(params, model):
+    with warnings.catch_warnings():
+        warnings.simplefilter("ignore")
+        label = core.concrete_run(lambda: sym_multikind(**params), model)
+    return {"ok": label is None, "detail": label or "holds", "label": label}
+
+
 OBLIGATIONS = [
     Ob("components", sym_components, _grid, nat_components, setup=_setup, witnesses=1,
        doc="plugins / loaders / savers / raised error == declarative specification, for ALL stored flags and policies"),
     Ob("counts", sym_counts, _g_counts, nat_counts, setup=_setup, witnesses=0,
        doc="real run: compute calls per plugin == chunks if it must run else 0"),
+    Ob("multikind", sym_multikind, lambda tier: [dict(case="stored"), dict(case="lazy_mp")], nat_multikind, setup=_setup,
+       witnesses=1, doc="allow_multiple with targets of different kinds: all stored -> loads; lazy + allow_multiprocess -> "
+                        "refused or both made"),
     Ob("multitarget", sym_multitarget, lambda tier: [dict(via="make"), dict(via="get_array")], nat_multitarget,
        setup=_setup, witnesses=1, doc="several same-kind targets in one request: each is saved as its policy says"),
     Ob("twin", sym_twin, lambda tier: [dict()], None, setup=_setup, expect_cex=True),
